@@ -347,7 +347,10 @@ func reply4(x uint32, class byte, idx int, op dhcpv4.OpcodeType, hw net.Hardware
 	// dropping datagrams that fill the buffer)
 	pad := func(target int) {
 		// filler in option 230 (two instances) so that the encoding is `target` octets
-		base := len(p.ToBytes())
+		base := 240 + 1 // header and cookie, End (not len(ToBytes()): short packets are padded to 300)
+		for _, v := range p.Options {
+			base += len(v) + 2*max(1, (len(v)+254)/255)
+		}
 		need := target - base // octets to add: v + 2*ceil(v/255)
 		for v := need; v > 0; v-- {
 			if v+2*((v+254)/255) == need {
@@ -356,14 +359,14 @@ func reply4(x uint32, class byte, idx int, op dhcpv4.OpcodeType, hw net.Hardware
 			}
 		}
 	}
-	switch idx % 8 {
-	case 5:
+	switch idx % 4 {
+	case 1:
 		pad(1500)
-	case 7:
+	case 2:
 		pad(1499)
 	}
 	b := p.ToBytes()
-	if idx%8 == 3 && len(hw) > 0 && len(hw) < 16 {
+	if idx%2 == 1 && len(hw) > 0 && len(hw) < 16 {
 		// octets of the chaddr field beyond hlen are padding: senders other than this
 		// library's encoder leave anything there, and it is no criterion for the client
 		// (seeded change C12-18: a pre-filter comparing all 16 octets of chaddr)
@@ -386,6 +389,13 @@ func reply6(x uint32, class byte, idx int) []byte {
 	m.AddOption(dhcpv6.OptServerID(&dhcpv6.DUIDLL{HWType: 1, LinkLayerAddr: net.HardwareAddr{2, 0, 0x5e, 0, 0, byte(idx)}}))
 	m.AddOption(&dhcpv6.OptionGeneric{OptionCode: dhcpv6.OptionCode(tagOpt6), OptionData: []byte{class, byte(idx >> 8), byte(idx)}})
 	m.AddOption(dhcpv6.OptClientID(&dhcpv6.DUIDLL{HWType: 1, LinkLayerAddr: clHW}))
+	// answers that fill the client's 1500-octet receive buffer, and one octet less
+	if k := idx % 4; k == 1 || k == 2 {
+		target := 1501 - k
+		if fill := target - len(m.ToBytes()) - 4; fill >= 0 {
+			m.AddOption(&dhcpv6.OptionGeneric{OptionCode: dhcpv6.OptionCode(tagOpt6 + 1), OptionData: bytes.Repeat([]byte{0x5a}, fill)})
+		}
+	}
 	return m.ToBytes()
 }
 
